@@ -102,4 +102,31 @@ example : wspecB (runFn noExt prog 100 callDepth (ixWNums .le) [.u 2, .u 2] [nat
     (.ok [2, 0, 2, 1, 3, 0]) = true := by decide +kernel
 example : opOK (.nums 2 2 .le) (.nums [0x0102, 3]) := by simp [opOK]
 
+/-! ### sensitivity: what the theorems exclude
+
+  The defect repaired in `/repo` commit `aef9d6d` (`WriteBasicTypeListLE` wrote its ELEMENTS through the big-endian helper)
+  is, in GoIR, the body of function 6 with the element call going to function 0 instead of 1.  That program does not
+  satisfy `ir_writeNums`'s conclusion: on `[0x0102]` it emits `01 00 01 02` where the model (and the property) say
+  `01 00 02 01`.  So the theorems distinguish the repaired code from the defective one. -/
+
+def fn6Defect : Func := { name := "WriteBasicTypeListLE", nparams := 1, body :=
+ (.seq (.seq (.call 4 [(.param 0)] [(.order .le), (.len (.var 0))] [(some 1)])
+ (.ite (.cmp .ne (.var 1) .nilErr)
+ (.ret [(.var 1)])
+ .skip))
+ (.seq (.range 2 (.var 0)
+ (.seq (.call 0 [(.param 1)] [(.var 2)] [(some 3)])
+ (.ite (.cmp .ne (.var 3) .nilErr)
+ (.ret [(.var 3)])
+ .skip)))
+ (.ret [.nilErr]))) }
+
+example : wspecB (runFn noExt (prog.set 6 fn6Defect) 100 callDepth (ixWNums .le) [.u 2, .u 2] [natsV [0x0102]] [])
+    [] (writeNums 2 2 .le [0x0102]) = false := by decide +kernel
+example : wspecB (runFn noExt (prog.set 6 fn6Defect) 100 callDepth (ixWNums .le) [.u 2, .u 2] [natsV [0x0102]] [])
+    [] (.ok [1, 0, 1, 2]) = true := by decide +kernel
+example : writeNums 2 2 .le [0x0102] = .ok [1, 0, 2, 1] := by decide +kernel
+/-- … and the regenerated-equals-committed obligation fails for it -/
+example : (prog.set 6 fn6Defect == prog) = false := by decide +kernel
+
 end FinProto.GoIR
